@@ -311,6 +311,18 @@ def run(res: Results, idx: Index, tier: str) -> None:
                 res.add("R-C05d", inst.status, inst.site, f"{inst.rule}::{inst.key}", f"[C08 {inst.rule}] {inst.detail}", inst.func)
     rule_f(res, idx)
     rule_g(res, idx)
+    if not getattr(res, "_nested_xref", False):
+        # the declared element type of an input follows the dtype the input specification is normalised to: a normalisation
+        # step that consults the ambient x64 flag (outside the export's precision scope) narrows 64-bit example arrays in a
+        # default process although the export itself traces them as 64-bit (C09 R-C09c, instances under to_onnx)
+        from . import c09
+        res.rule("R-C05h", "input specifications and interface names are prepared without x64-sensitive JAX calls outside the export's precision scope (C09 R-C09c)", floor=5)
+        sub9 = Results("C09", tier)
+        setattr(sub9, "_nested_xref", True)
+        c09.rule_c(sub9, idx)
+        for inst in sub9.instances:
+            if inst.rule == "R-C09c" and "user_interface.py::to_onnx::" in inst.key:
+                res.add("R-C05h", inst.status, inst.site, f"R-C09c::{inst.key}", f"[C09 R-C09c] {inst.detail}", inst.func)
 
 
 def _descend(body: List[ast.stmt]) -> List[ast.AST]:
